@@ -144,6 +144,10 @@ func genPipeShape() error {
 		boolv("selectOnDone_"+fn, strings.Contains(body, "case <-ctxCh: goto abort"))
 		boolv("rejectsByState_"+fn, strings.Contains(body, "if state == 1 { goto queue }") && strings.Contains(body, "if state == 0 {"))
 	}
+	// --- pipe life (C04b): the guards and the statement order the interleaving model Rv/Model/PipeLife.lean transcribes
+	if err := genPipeLife(fset, pf, strs, str, boolv); err != nil {
+		return err
+	}
 	// --- client loops
 	_, cf, err := parseFile("client.go")
 	if err != nil {
@@ -191,4 +195,183 @@ func genPipeShape() error {
 	fmt.Fprintf(&b, "def waitOrSkipSha : Nat := 0x%x\n", h[:8])
 	b.WriteString("end Rv.Gen.PipeShape\n")
 	return writeLean("PipeShape.lean", b.String())
+}
+
+// topStmts prints the top-level statements of a block, one normalised string each.
+func topStmts(fset *token.FileSet, b *ast.BlockStmt) []string {
+	out := make([]string, 0, len(b.List))
+	for _, st := range b.List {
+		out = append(out, src(fset, st))
+	}
+	return out
+}
+
+// orderOf returns the given markers sorted by their first position in body; a marker that does not
+// occur (or occurs before its predecessor's text is found twice) makes the extraction fail closed.
+func orderOf(fn, body string, markers map[string]string) ([]string, error) {
+	type mp struct {
+		name string
+		pos  int
+	}
+	var ms []mp
+	for name, text := range markers {
+		p := strings.Index(body, text)
+		if p < 0 {
+			return nil, fail("%s: statement %q (%s) not found", fn, text, name)
+		}
+		ms = append(ms, mp{name, p})
+	}
+	for i := 0; i < len(ms); i++ {
+		for j := i + 1; j < len(ms); j++ {
+			if ms[j].pos < ms[i].pos {
+				ms[i], ms[j] = ms[j], ms[i]
+			}
+		}
+	}
+	out := make([]string, len(ms))
+	for i, m := range ms {
+		out[i] = m.name
+	}
+	return out, nil
+}
+
+func genPipeLife(fset *token.FileSet, pf *ast.File, strs func(string, []string), str func(string, string), boolv func(string, bool)) error {
+	// every value ever written to / compared with p.state, per function (CAS old/new, Store, the dead pipes)
+	var stateOps []string
+	ast.Inspect(pf, func(n ast.Node) bool {
+		fd, ok := n.(*ast.FuncDecl)
+		if !ok || fd.Body == nil {
+			return true
+		}
+		ast.Inspect(fd.Body, func(m ast.Node) bool {
+			switch x := m.(type) {
+			case *ast.CallExpr:
+				t := src(fset, x)
+				if strings.HasPrefix(t, "atomic.CompareAndSwapInt32(&p.state,") || strings.HasPrefix(t, "atomic.StoreInt32(&p.state,") {
+					stateOps = append(stateOps, fd.Name.Name+": "+t)
+				}
+			case *ast.CompositeLit:
+				t := src(fset, x)
+				if strings.HasPrefix(t, "pipe{state:") {
+					stateOps = append(stateOps, fd.Name.Name+": "+t)
+				}
+			}
+			return true
+		})
+		return false
+	})
+	strs("stateWrites", stateOps)
+	// background(), _exit: whole bodies (three lines each)
+	for _, fn := range []string{"background", "_exit"} {
+		fd := findFunc(pf, "pipe", fn)
+		if fd == nil {
+			return fail("pipe.%s not found", fn)
+		}
+		strs("body_"+fn, topStmts(fset, fd.Body))
+	}
+	bgf := findFunc(pf, "pipe", "background")
+	if len(bgf.Body.List) != 1 {
+		return fail("pipe.background: expected one guarded block")
+	}
+	if ifs, ok := bgf.Body.List[0].(*ast.IfStmt); ok {
+		strs("background_inner", topStmts(fset, ifs.Body))
+	} else {
+		return fail("pipe.background: expected `if p.queue != nil`")
+	}
+	// _background: the order of the exit path
+	bg := findFunc(pf, "pipe", "_background")
+	bgs := src(fset, bg.Body)
+	order, err := orderOf("_background", bgs, map[string]string{
+		"writerExit":  "go func() { p._exit(p._backgroundWrite()) close(p.close) }()",
+		"readerExit":  "rerr = p._backgroundRead() p._exit(rerr)",
+		"wakeupPing":  "select { case <-p.close: default: p.incrWaits() go func() { ch, _ := p.queue.PutOne(context.Background(), cmds.PingCmd)",
+		"loadError":   "err := p.Error()",
+		"drainLoop":   "for p.loadWaits() != 0 {",
+		"awaitWriter": "} <-p.close atomic.StoreInt32(&p.state, 4)",
+		"storeClosed": "atomic.StoreInt32(&p.state, 4)",
+	})
+	if err != nil {
+		return err
+	}
+	strs("backgroundOrder", order)
+	boolv("backgroundEndsWithStore", strings.HasSuffix(bgs, "<-p.close atomic.StoreInt32(&p.state, 4) }"))
+	boolv("wakeupPingDecrements", strings.Contains(bgs, "ch, _ := p.queue.PutOne(context.Background(), cmds.PingCmd) // avoid _backgroundWrite hanging at p.queue.WaitForWrite() <-ch p.decrWaits() }()") ||
+		strings.Contains(bgs, "ch, _ := p.queue.PutOne(context.Background(), cmds.PingCmd) <-ch p.decrWaits() }()"))
+	// the drain loop body
+	var loop *ast.ForStmt
+	ast.Inspect(bg.Body, func(n ast.Node) bool {
+		if f, ok := n.(*ast.ForStmt); ok && f.Cond != nil && src(fset, f.Cond) == "p.loadWaits() != 0" {
+			loop = f
+		}
+		return true
+	})
+	if loop == nil {
+		return fail("_background: drain loop `for p.loadWaits() != 0` not found")
+	}
+	strs("drainLoopBody", topStmts(fset, loop.Body))
+	// _backgroundRead: the deferred handler completes the in-flight batch
+	rd := findFunc(pf, "pipe", "_backgroundRead")
+	var deferSrc string
+	ast.Inspect(rd.Body, func(n ast.Node) bool {
+		if d, ok := n.(*ast.DeferStmt); ok && deferSrc == "" {
+			deferSrc = src(fset, d)
+		}
+		return true
+	})
+	boolv("readDeferCompletesInflight", strings.Contains(deferSrc, "if err != nil && ff < len(multi) { for ; ff < len(resps); ff++ { resps[ff] = resp } ch <- resp p.queue.FinishResult() }"))
+	// Close: statement list (the head order latch / incrWaits / CAS / CAS matters for the model)
+	cl := findFunc(pf, "pipe", "Close")
+	if cl == nil {
+		return fail("pipe.Close not found")
+	}
+	cls := topStmts(fset, cl.Body)
+	strs("closeStmts", cls)
+	ex := findFunc(pf, "pipe", "expired")
+	if ex == nil {
+		return fail("pipe.expired not found")
+	}
+	strs("expiredStmts", topStmts(fset, ex.Body))
+	// Do / DoMulti: admission
+	for _, fn := range []string{"Do", "DoMulti"} {
+		fd := findFunc(pf, "pipe", fn)
+		body := src(fset, fd.Body)
+		boolv("stateLoadAfterIncr_"+fn, strings.Contains(body, "waits := p.incrWaits() // if this is 1, and the background worker is not started, no need to queue state := atomic.LoadInt32(&p.state) if state == 1 { goto queue } if state == 0 { if waits != 1 { goto queue }") ||
+			strings.Contains(body, "waits := p.incrWaits() state := atomic.LoadInt32(&p.state) if state == 1 { goto queue } if state == 0 { if waits != 1 { goto queue }"))
+		// the tail after the sync/reject branch
+		tail := ""
+		ast.Inspect(fd.Body, func(n ast.Node) bool {
+			if i, ok := n.(*ast.IfStmt); ok && i.Init != nil && strings.HasPrefix(src(fset, i.Init), "left := p.decrWaitsAndIncrRecvs()") {
+				tail = src(fset, i.Init) + "; " + src(fset, i.Cond) + " " + src(fset, i.Body)
+			}
+			return true
+		})
+		if tail == "" {
+			return fail("pipe.%s: tail `if left := p.decrWaitsAndIncrRecvs(); …` not found", fn)
+		}
+		str("tail_"+fn, tail)
+		// order: ctx check, incrWaits, state load, reject branch, queue label, put, select, abort goroutine
+		put := "p.queue.PutOne(ctx, cmd)"
+		rej := "} else { resp = NewErrorResult(p.Error()) }"
+		abort := "abort: go func(ch chan RedisResult) { <-ch p.decrWaitsAndIncrRecvs() }(ch) return NewErrorResult(ctx.Err())"
+		if fn == "DoMulti" {
+			put = "p.queue.PutMulti(ctx, multi, resp.s)"
+			rej = "} else { err := NewErrorResult(p.Error())"
+			abort = "abort: go func(resp *redisresults, ch chan RedisResult) { <-ch resultsp.Put(resp) p.decrWaitsAndIncrRecvs() }(resp, ch)"
+		}
+		ord, err := orderOf("pipe."+fn, body, map[string]string{
+			"ctxCheck":  "if err := ctx.Err(); err != nil {",
+			"incrWaits": "waits := p.incrWaits()",
+			"loadState": "state := atomic.LoadInt32(&p.state)",
+			"reject":    rej,
+			"tail":      "if left := p.decrWaitsAndIncrRecvs();",
+			"put":       "queue: ch, err := " + put + " if err != nil { p.decrWaits()",
+			"select":    "case <-ctxCh: goto abort",
+			"abort":     abort,
+		})
+		if err != nil {
+			return err
+		}
+		strs("admissionOrder_"+fn, ord)
+	}
+	return nil
 }
